@@ -152,6 +152,8 @@ func vInboundSetupX(et bool, anyInbound bool) (*vWorld, *conn, *vInbound) {
 	w.h.onTraffic = x.onTraffic
 	w.h.onClose = func(c *conn, err error) Action {
 		x.offeredAtClose = vk.S[vConnFD].Roff
+		// OnClose is a callback too: what the handler has not consumed is still readable inside it
+		vAssert("C01.onclose.consumed_plus_buffered_is_delivered", x.consumed+c.InboundBuffered() == x.li+vk.S[vConnFD].Roff)
 		return None
 	}
 	return w, c, x
@@ -206,4 +208,20 @@ func VH_C01_ProcessIORdHup() {
 	err := c.processIO(vConnFD, 0x1|0x2000, 0) // EPOLLIN | EPOLLRDHUP
 	vAssert("C01.rdhup.no_engine_error", err == nil)
 	x.after("rdhup")
+}
+
+// Same event with three data-carrying reads before the EOF: processIO first runs the ordinary read (which the chunk
+// limit stops after one read), then sets isEOF and drains: two more reads, the later OnTraffic must see the remainder
+// the handler left after the earlier ones followed by the new bytes. Inbound buffer initially empty, sizes <= 4; in
+// the quick tier because the draining branch of eventloop.read is only exercised this way.
+//
+//verif: mode=int unwind=6 maxlen=4
+func VH_C01_RdHupDrain3() {
+	_, c, x := vInboundSetupX(true, false)
+	vAssume(x.op <= 2) // leaves everything / Read / Next (Peek+Discard and WriteTo: single-read harnesses, thorough tier)
+	vk.S[vConnFD].Fin = true
+	vk.MaxReads = 3
+	err := c.processIO(vConnFD, 0x1|0x2000, 0) // EPOLLIN | EPOLLRDHUP
+	vAssert("C01.rdhup2.no_engine_error", err == nil)
+	x.after("rdhup2")
 }
